@@ -188,6 +188,10 @@ def gen_plan(rng, run_index, tier, opts):
         if path == "file" and not st.get("fault") == "crash" and rng.random() < 0.3:
             steps.append({"op": "restart"})
         ld = {"op": "load", "path": path}
+        if path == "string" and target[0] == "P" and not mip and rng.random() < 0.2:
+            ld["rfj"] = True
+            if not (own_grid and rng.random() < 0.5):
+                ld["rfj_grid"] = rng.choice(probes[:2])
         if path == "file":
             r = rng.random()
             if r < 0.08:
@@ -513,6 +517,18 @@ class Run:
                 return
             self.events.append((i, "load:string", "ok"))
             if self.compare(i, loaded, [self.text_snap], "string"):
+                rg = st.get("rfj_grid") or getattr(self.text_snap, "_verif_grid_id", None)
+                if st.get("rfj") and rg is not None and rg in self.pgrid:
+                    # the whole chain from the JSON text: load, set up, optimise, extract
+                    try:
+                        kwr = {"timegrid": self.B.grid(st["rfj_grid"])} if st.get("rfj_grid") else {}
+                        out = eao.serialization.run_from_json(json_str=self.text, prices=self.B.prices(self.pgrid[rg]), **kwr)
+                    except Exception as e2:
+                        out = ("raise", type(e2).__name__)
+                    if not self.r4(i, st, out, self.text_snap, rg):
+                        return
+                    if st.get("rfj_grid"):
+                        self.probes["run_from_json_with_other_grid"] = self.probes.get("run_from_json_with_other_grid", 0) + 1
                 self.live = loaded
                 self.live_grid = getattr(self.text_snap, "_verif_grid_id", None)
                 self.stats["generations"] += 1
@@ -575,36 +591,7 @@ class Run:
             return
         if self.compare(i, loaded, refs, path + ("" if acked else ":unacked")):
             if ran and acked and f is None:
-                # R4: what could be optimised before saving can be optimised after loading, with the same value
-                ref = copy.deepcopy(refs[0])
-                p = self.pgrid[ran]
-                tw = specs.Builder(self.w)
-                try:
-                    if st.get("rfj_grid"):
-                        ref.set_timegrid(tw.grid(st["rfj_grid"]))   # documented: the grid given to run_from_json is the one used
-                    pr_ = tw.prices(p)
-                    opr = ref.setup_optim_problem(pr_)
-                    rr = opr.optimize()
-                    if isinstance(rr, str):
-                        v_ref = None
-                    else:
-                        # the same steps run_from_json takes, incl. the extraction of the output tables (which has
-                        # limitations of its own, e.g. a portfolio without any nodal restriction - soak seed 405)
-                        eao.io.extract_output(ref, opr, rr, pr_)
-                        v_ref = float(rr.value)
-                except Exception as e3:
-                    v_ref = ("raise", type(e3).__name__)
-                v_new = None
-                if isinstance(out, tuple) or isinstance(v_ref, tuple):
-                    self.stats["r4_checked"] += 1
-                    if isinstance(out, tuple) != isinstance(v_ref, tuple):
-                        self.viol("R4-run-from-json-value", i, "run_from_json: %r, same steps on the object before saving: %r" % (out if isinstance(out, tuple) else "works", v_ref if isinstance(v_ref, tuple) else "works"), "raises")
-                        return
-                elif isinstance(out, dict) and out.get("summary") is not None and hasattr(out["summary"], "loc"):
-                    v_new = float(out["summary"].loc["value", "Values"])
-                    self.stats["r4_checked"] += 1
-                if isinstance(v_ref, float) and not isinstance(out, tuple) and (v_new is None or abs(v_new - v_ref) > 1e-6 * (1 + abs(v_ref))):
-                    self.viol("R4-run-from-json-value", i, "run_from_json value %r, value before saving %r" % (v_new, v_ref), "value")
+                if not self.r4(i, st, out, refs[0], ran):
                     return
             self.live = loaded
             self.live_grid = getattr(refs[0], "_verif_grid_id", None) if acked or len(refs) == 1 else None
@@ -614,6 +601,42 @@ class Run:
             if acked:
                 self.need_liveness = False
             self.cover(st, "acked" if acked else "unacked")
+
+    def r4(self, i, st, out, snap, ran):
+        """R4: what could be optimised before saving can be optimised after loading, with the same value.  False: violation."""
+        import eaopack as eao
+        # R4: what could be optimised before saving can be optimised after loading, with the same value
+        ref = copy.deepcopy(snap)
+        p = self.pgrid[ran]
+        tw = specs.Builder(self.w)
+        try:
+            if st.get("rfj_grid"):
+                ref.set_timegrid(tw.grid(st["rfj_grid"]))   # documented: the grid given to run_from_json is the one used
+            pr_ = tw.prices(p)
+            opr = ref.setup_optim_problem(pr_)
+            rr = opr.optimize()
+            if isinstance(rr, str):
+                v_ref = None
+            else:
+                # the same steps run_from_json takes, incl. the extraction of the output tables (which has
+                # limitations of its own, e.g. a portfolio without any nodal restriction - soak seed 405)
+                eao.io.extract_output(ref, opr, rr, pr_)
+                v_ref = float(rr.value)
+        except Exception as e3:
+            v_ref = ("raise", type(e3).__name__)
+        v_new = None
+        if isinstance(out, tuple) or isinstance(v_ref, tuple):
+            self.stats["r4_checked"] += 1
+            if isinstance(out, tuple) != isinstance(v_ref, tuple):
+                self.viol("R4-run-from-json-value", i, "run_from_json: %r, same steps on the object before saving: %r" % (out if isinstance(out, tuple) else "works", v_ref if isinstance(v_ref, tuple) else "works"), "raises")
+                return False
+        elif isinstance(out, dict) and out.get("summary") is not None and hasattr(out["summary"], "loc"):
+            v_new = float(out["summary"].loc["value", "Values"])
+            self.stats["r4_checked"] += 1
+        if isinstance(v_ref, float) and not isinstance(out, tuple) and (v_new is None or abs(v_new - v_ref) > 1e-6 * (1 + abs(v_ref))):
+            self.viol("R4-run-from-json-value", i, "run_from_json value %r, value before saving %r" % (v_new, v_ref), "value")
+            return False
+        return True
 
     def cover(self, st, result):
         hist = ",".join(sorted(set(self.hist_sig))) or "nohist"
